@@ -37,17 +37,18 @@ _DSUM = {}
 
 
 def dsum_of(name, fam, profile, late):
-    key = (name, late)
+    key = (name, late, profile == "supp")
     if key in _DSUM:
         return _DSUM[key]
     o = L.OBJ[name]
     df = L.private_frame(o["obj"])
     combos = sorted(set(zip(df.index.month.tolist(), df.index.dayofweek.tolist())))
     observed = "observed" in df.columns and not bool(df["observed"].isnull().all())
-    cols = [feat_id(c) for c in df.columns if c in ("temperature", "ghi")]
-    t = "{| ds_id := %s; ds_combos := %s; ds_observed := %s; ds_columns := %s; ds_supp := []; ds_late_exc := %s |}" % (
+    cols = [feat_id(c) for c in df.columns if c in ("temperature", "ghi", "occ")]
+    supp = [feat_id("occ")] if (profile == "supp" and "occ" in df.columns) else []
+    t = "{| ds_id := %s; ds_combos := %s; ds_observed := %s; ds_columns := %s; ds_supp := %s; ds_late_exc := %s |}" % (
         zlit(L.OBJ_ORDER[fam].index(name)), coq_list(["(%s, %s)" % (zlit(a), zlit(b)) for a, b in combos]),
-        coq_bool(observed), coq_list([zlit(c) for c in cols]), coq_bool(late))
+        coq_bool(observed), coq_list([zlit(c) for c in cols]), coq_list([zlit(c) for c in supp]), coq_bool(late))
     _DSUM[key] = (t, combos, observed, cols)
     return _DSUM[key]
 
@@ -74,7 +75,8 @@ def hourly_case(job, res, flags):
             ref = L.REF.get((fam, profile, "fitted", name), "")
             _, combos, observed, cols = dsum_of(name, fam, profile, False)
             missing_feat = any(f not in cols for f in ts_now)
-            late = ref.startswith("EXC") and not missing_feat
+            supp_new = flags["hourly"]["extends_features"] and profile == "supp" and feat_id("occ") in cols and feat_id("occ") not in ts_now
+            late = ref.startswith("EXC") and not missing_feat and not supp_new
             dterm, combos, observed, cols = dsum_of(name, fam, profile, late)
             # label oracle: what the implementation gave to the combinations the table did not know
             before = {(m, w): v for m, w, v in cur["table"]}
@@ -138,6 +140,8 @@ def store_case(job, res):
     for rec in res["trace"]:
         kind = rec["op"][0]
         changed = sorted({l for l in (key_loc(k) for k in rec["changed"]) if l is not None})
+        if kind == "construct":
+            changed = None           # the new caller frames get their locations below
         if rec.get("skipped") or kind in ("to_json", "reload"):
             sops.append("(SFit %s)" % nat(0)); sobs.append((changed, 0)); continue
         if kind == "predict":
@@ -167,6 +171,7 @@ def store_case(job, res):
             else:
                 sops.append("(SSeries %s %s %s %s)" % (tag, coq_bool(spec["elec"]),
                                                         "None" if rl[0] is None else "(Some %s)" % nat(rl[0]), nat(rl[1])))
+            changed = sorted({l for l in (key_loc(k) for k in rec["changed"]) if l is not None})
             sobs.append((changed, 1))
             loc["L:%d" % rec["new_local"]] = nloc; nloc += 1
         elif kind == "df":
@@ -202,7 +207,7 @@ def correspondence(run, jobs, results, flags):
         if job["fam"] == "Hourly":
             t, why = hourly_case(job, res, flags)
             if t is None:
-                run.corr_failures.append({"stream": "hourly-state", "case": case, "model": why})
+                run.corr_failures.append({"stream": "hourly_state", "case": case, "model": why})
             else:
                 hterms.append(t); hkept.append((case, res))
         t, why = store_case(job, res)
@@ -220,9 +225,9 @@ def correspondence(run, jobs, results, flags):
                     fkept.append((case, rec))
                     run.dist("fit of another meter", "poor fit" if poor else "acceptable fit")
     for stream, terms, kept, fn, ty in [
-            ("hourly-state", hterms, hkept, "check_hourly", "(hcfg * hstate * list cop * list hobs)%type"),
+            ("hourly_state", hterms, hkept, "check_hourly", "(hcfg * hstate * list cop * list hobs)%type"),
             ("store", sterms, skept, "check_store", "(list (dclass * ccfg) * list cell * list sop * list sobs)%type"),
-            ("fit-lists", fterms, fkept, "check_fit_lists", "(bool * bool * nat * (nat * nat))%type")]:
+            ("fit_lists", fterms, fkept, "check_fit_lists", "(bool * bool * nat * (nat * nat))%type")]:
         if not terms:
             continue
         bad = run.coq_cases(stream, imports, "", terms, fn, shard=25, case_type=ty)
@@ -234,7 +239,7 @@ def correspondence(run, jobs, results, flags):
             run.corr_failures.append({"stream": stream, "case": case, "term": terms[i][:3000],
                                       "impl": ([{k: v for k, v in r.items() if k in ("op", "changed", "pred", "hstate", "dataset", "alias")}
                                                 for r in res["trace"]] if isinstance(res, dict) and "trace" in res else res)})
-            if stream == "hourly-state" and len(run.cov.setdefault("model_eval", [])) < 2:
+            if stream == "hourly_state" and len(run.cov.setdefault("model_eval", [])) < 2:
                 run.cov["model_eval"].append(run.coq_eval(
                     imports, "", "let '(cfg, s0, ops, obs) := %s in map (fun x => (clusters (fst x), warnings (fst x), snd x)) (trace cfg s0 ops)"
                     % terms[i])[-1500:])
